@@ -109,7 +109,8 @@ theorem chkStep_chks_self_failed (cfg : Cfg) (f : Faults) (s : St) (k : Id) (h :
   · exact hdel
   · unfold syncCheck; simp only
     rcases h with h | h <;> rw [h]
-    simp only; split <;> rfl
+    · rfl
+    · simp only; split <;> rfl
   · rfl
 
 /-- the record of a check survives the service loop untouched when the RPC of the service it is
